@@ -162,6 +162,23 @@ static std::string exec(const std::vector<std::string>& t) {
             s == "search" ? u.search(a) : u.hash(a);
         return std::string("ret=") + (ret ? "1" : "0") + " " + public_dump(u);
     }
+    if (op == "aparsebg" && t.size() == 3) {
+        upa::url& u = g_url[std::atoi(t[1].c_str())];
+        if (!u.is_valid()) return public_dump(u);
+        const std::string& g = t[2];
+        const upa::string_view a = g == "href" ? u.href() : g == "protocol" ? u.protocol() : g == "pathname" ? u.pathname() : g == "search" ? u.search() :
+            g == "hash" ? u.hash() : g == "host" ? u.host() : u.path();
+        const bool ok = u.parse(a, &u) == upa::validation_errc::ok;
+        return std::string("ok=") + (ok ? "1" : "0") + " " + public_dump(u);
+    }
+    if (op == "aparsesp" && t.size() == 4) {
+        upa::url& u = g_url[std::atoi(t[1].c_str())];
+        const std::string* v = nullptr;
+        if (u.is_valid()) { const std::vector<unsigned long> units = parse_units(t[3]); WITH(t[2], units, v = u.search_params().get(a)); }
+        if (!v) return public_dump(u);
+        const bool ok = u.parse(*v, nullptr) == upa::validation_errc::ok;
+        return std::string("ok=") + (ok ? "1" : "0") + " " + public_dump(u);
+    }
     if (op == "aparse" && t.size() == 2) {
         upa::url& u = g_url[std::atoi(t[1].c_str())];
         if (!u.is_valid()) return public_dump(u);
@@ -227,6 +244,9 @@ static std::string exec(const std::vector<std::string>& t) {
         else if (o == "aparse") { const std::string* v = nullptr; WITH(e0, a0, v = p.get(a)); if (v) p.parse(*v); else r = "0"; }
         else if (o == "aappend") { if (p.empty()) r = "0"; else p.append(p.begin()->first, p.begin()->second); }
         else if (o == "aset") { if (p.empty()) r = "0"; else p.set(p.begin()->first, std::prev(p.end())->second); }
+        else if (o == "aset2") { if (p.empty()) r = "0"; else p.set(std::prev(p.end(), p.size() >= 2 ? 2 : 1)->first, p.begin()->second); }
+        else if (o == "adel") { if (p.empty()) r = "0"; else p.del(std::prev(p.end(), p.size() >= 2 ? 2 : 1)->first); }
+        else if (o == "adel2") { if (p.empty()) r = "0"; else p.del(std::prev(p.end())->first, std::prev(p.end())->second); }
         else if (o == "size") r = std::to_string(p.size());
         else if (o == "str") r = op == "sp" ? hx(p.to_string()) : std::string("?");   // psp: driver.cpp has no "str" (str= is part of every psp answer)
         else if (o == "copy") p = g_params[std::atoi(t[3].c_str())];
@@ -250,6 +270,23 @@ static std::string exec(const std::vector<std::string>& t) {
             else if (o == "safea") g_url[d].safe_assign(std::move(g_url[s]));
         }
         return "d=" + public_dump(g_url[d]) + " s=" + public_dump(g_url[s]);
+    }
+    // ---- file path conversions (C17's API, compared across configurations by C18)
+    if (op == "frompath" && t.size() == 4) {
+        const std::vector<unsigned long> units = parse_units(t[3]);
+        const upa::file_path_format fmt = t[1] == "windows" ? upa::file_path_format::windows : upa::file_path_format::posix;
+        try {
+            upa::url u;
+            WITH(t[2], units, u = upa::url_from_file_path(a, fmt));
+            return public_dump(u);
+        } catch (const upa::url_error&) { return "I"; }
+    }
+    if (op == "topath" && t.size() == 3) {
+        const upa::url& u = g_url[std::atoi(t[2].c_str())];
+        if (!u.is_valid()) return "0";
+        try {
+            return "1:" + hx(upa::path_from_file_url(u, t[1] == "windows" ? upa::file_path_format::windows : upa::file_path_format::posix));
+        } catch (const upa::url_error&) { return "0"; }
     }
     if (op == "ipv4" && t.size() == 2) {
         const std::u32string s = mk<std::u32string>(parse_units(t[1]));
